@@ -27,6 +27,10 @@ func BuildMapCodec(p CodecBuilder, registry CodecRegistry, typ reflect.Type, tag
 		return nil, fmt.Errorf("type must be a map to build a map codec")
 	}
 
+	if tag != "" && tag != "proto" {
+		return nil, fmt.Errorf("no codec available for %s with tag %q", typ, tag)
+	}
+
 	if typ.Elem().Kind() == reflect.Map {
 		// Map codecs expect the map itself when encoding, not its address
 		return nil, fmt.Errorf("maps with map values are not supported")
